@@ -84,6 +84,16 @@ def _index_of(net, assignment_by_label):
     return k
 
 
+def _intended(circuit, assignment):
+    """The assignment as the caller wrote it.  The workload only ever writes input keys into the dict objects it passes
+    (and says so through CUR['inputs_only']); any other key found in such a dict was put there by the library and is not
+    part of the request."""
+    if CUR.get('inputs_only'):
+        ins = set(circuit.inputs)
+        return {k: v for k, v in assignment.items() if k in ins}
+    return assignment
+
+
 def _total_input_assignment(circuit, assignment):
     """True iff assignment defines exactly the inputs with booleans (C01's domain)."""
     ins = circuit.inputs
@@ -182,7 +192,7 @@ def _cone(net, roots):
 
 def post_evaluate_circuit(state, args, kwargs, result):
     self = args[0]
-    assignment = args[1] if len(args) > 1 else kwargs['assignment']
+    assignment = _intended(self, args[1] if len(args) > 1 else kwargs['assignment'])
     outs = kwargs.get('outputs')
     ctx = CUR['ctx']
     if not _total_input_assignment(self, assignment):
@@ -214,7 +224,7 @@ def post_evaluate_circuit(state, args, kwargs, result):
 
 def post_evaluate_circuit_outputs(state, args, kwargs, result):
     self = args[0]
-    assignment = args[1] if len(args) > 1 else kwargs['assignment']
+    assignment = _intended(self, args[1] if len(args) > 1 else kwargs['assignment'])
     ctx = CUR['ctx']
     if not _total_input_assignment(self, assignment):
         ctx.mon('evaluate_circuit_outputs', 'skipped_partial')
@@ -232,7 +242,7 @@ def post_evaluate_circuit_outputs(state, args, kwargs, result):
 
 def post_evaluate_full_circuit(state, args, kwargs, result):
     self = args[0]
-    assignment = args[1] if len(args) > 1 else kwargs['assignment']
+    assignment = _intended(self, args[1] if len(args) > 1 else kwargs['assignment'])
     ctx = CUR['ctx']
     if not _total_input_assignment(self, assignment):
         ctx.mon('evaluate_full_circuit', 'skipped_partial')
@@ -308,8 +318,19 @@ def drive(circuit, net, ctx, rng, exhaustive=True):
         assigns += [tuple([False] * n), tuple([True] * n)]
     no = len(net.outputs)
     results = {}
+    # half of the time one assignment dict object is kept by the caller and updated in place between calls (the usual way
+    # to sweep inputs); the callee must treat it as read-only input
+    reuse = rng.random() < 0.5
+    shared = {}
+    CUR['inputs_only'] = True
+    if reuse:
+        ctx.count('assignment_dict_reused')
     for a in assigns:
-        d = dict(zip(net.inputs, a))
+        if reuse:
+            shared.update(zip(net.inputs, a))
+            d = shared
+        else:
+            d = dict(zip(net.inputs, a))
         r = circuit.evaluate(list(a))
         results[a] = r
         if no:
@@ -320,6 +341,7 @@ def drive(circuit, net, ctx, rng, exhaustive=True):
             circuit.evaluate_circuit(d, outputs=sub)
         circuit.evaluate_circuit_outputs(d)
         circuit.evaluate_full_circuit(d)
+    CUR['inputs_only'] = False
     if n <= 6:
         circuit.get_truth_table()
         circuit.get_gates_truth_table()
@@ -334,6 +356,7 @@ def ctx_count(name):
 def check_case(case, ctx):
     import random
     CUR['case'] = case
+    CUR['inputs_only'] = False
     net = netgen.from_description(case['net'])
     rng = random.Random(case.get('rseed', 0))
     try:
